@@ -112,12 +112,51 @@ struct Agg {
     determinism_mismatch: u64,
 }
 
+/// corpus of hand-written / minimised scenarios (sorted by file name): every 5th case of a batch
+/// is a seeded variant of one of them
+pub fn load_corpus() -> Vec<Scenario> {
+    let dir = verif_dir().join("corpus");
+    let mut files: Vec<std::path::PathBuf> = match std::fs::read_dir(&dir) {
+        Ok(rd) => rd.filter_map(|e| e.ok().map(|e| e.path())).filter(|p| p.extension().map(|x| x == "json").unwrap_or(false)).collect(),
+        Err(_) => Vec::new(),
+    };
+    files.sort();
+    let mut out = Vec::new();
+    for f in files {
+        let s = match std::fs::read_to_string(&f) {
+            Ok(s) => s,
+            Err(_) => continue,
+        };
+        let sc: Option<Scenario> = serde_json::from_str::<ReplayFile>(&s).map(|r| r.scenario).ok().or_else(|| serde_json::from_str::<Scenario>(&s).ok());
+        match sc {
+            Some(sc) => out.push(sc),
+            None => {
+                eprintln!("harness error: corpus file {} does not parse", f.display());
+                std::process::exit(2);
+            }
+        }
+    }
+    out
+}
+
+pub fn scenario_for(corpus: &[Scenario], gp: &gen::GenParams, base_seed: u64, i: u64) -> Scenario {
+    let seed = seed_for(base_seed, i);
+    if !corpus.is_empty() && i % 5 == 4 {
+        let k = ((i / 5) as usize) % corpus.len();
+        gen::corpus_variant(&corpus[k], seed, gp)
+    } else {
+        gen::generate(seed, gp)
+    }
+}
+
 fn seed_for(base: u64, i: u64) -> u64 {
     base.wrapping_mul(1u64 << 32).wrapping_add(i)
 }
 
 fn run_batch(prop: &str, thorough: bool, base_seed: u64, count: u64, wall_cap_s: f64, threads: usize) -> (Agg, bool) {
     let gp = gen::params_for(prop, thorough);
+    let corpus = load_corpus();
+    let corpus = &corpus;
     let next = AtomicU64::new(0);
     let stop = AtomicBool::new(false);
     let t0 = Instant::now();
@@ -159,7 +198,7 @@ fn run_batch(prop: &str, thorough: bool, base_seed: u64, count: u64, wall_cap_s:
                                 break;
                             }
                             let seed = seed_for(base_seed, i);
-                            let sc = gen::generate(seed, &gp);
+                            let sc = scenario_for(corpus, &gp, base_seed, i);
                             let rep = run_scenario(&sc, opts);
                             a.scenarios += 1;
                             // determinism sample: re-execute 1% in-process and compare digests
@@ -292,8 +331,9 @@ fn cmd_check(prop: &str, tier: &str) -> i32 {
     let mut known_hits: BTreeMap<String, u64> = BTreeMap::new();
     let mut unknown: Vec<(u64, usize, driver::Violation)> = Vec::new();
     // every hit is matched individually (a known finding must not mask a different witness of the same clause)
+    let corpus = load_corpus();
     for (i, r, vi) in agg.hits.iter() {
-        let sc = gen::generate(seed_for(base_seed, *i), &gp);
+        let sc = scenario_for(&corpus, &gp, base_seed, *i);
         match known.findings.iter().find(|k| matches_known(k, prop, vi, &sc, *r)) {
             Some(k) => {
                 let line = format!("KNOWN-FINDING: property={} {} [{}]", prop, k.description, k.clause);
@@ -318,7 +358,7 @@ fn cmd_check(prop: &str, tier: &str) -> i32 {
     let mut replay_paths: Vec<String> = Vec::new();
     for (i, r, vi) in unknown.iter() {
         let seed = seed_for(base_seed, *i);
-        let sc = gen::generate(seed, &gp);
+        let sc = scenario_for(&corpus, &gp, base_seed, *i);
         println!("violation candidate: seed={} round={} {} {} :: {}", seed, r, vi.prop, vi.clause, vi.msg);
         let (min_sc, min_round, min_vi) = shrink::shrink(&sc, &opts, vi, &known);
         let rf = ReplayFile {
@@ -433,6 +473,8 @@ fn cmd_survey(prop: &str, count: u64, thorough: bool) -> i32 {
     let base_seed: u64 = std::env::var("VERIF_SEED").ok().and_then(|s| s.parse().ok()).unwrap_or(1);
     let gp = gen::params_for(prop, thorough);
     let opts = RunOpts { prop: prop.to_string(), thorough };
+    let corpus = load_corpus();
+    let corpus = &corpus;
     let next = AtomicU64::new(0);
     let mut all: BTreeMap<String, (u64, u64, String)> = BTreeMap::new();
     std::thread::scope(|s| {
@@ -448,7 +490,7 @@ fn cmd_survey(prop: &str, count: u64, thorough: bool) -> i32 {
                     if i >= count {
                         break;
                     }
-                    let sc = gen::generate(seed_for(base_seed, i), &gp);
+                    let sc = scenario_for(corpus, &gp, base_seed, i);
                     let rep = run_scenario(&sc, opts);
                     for (_, vi) in rep.violations.iter() {
                         let sig = format!("{} {} {}", vi.prop, vi.clause, if vi.prop == "C06" || vi.prop == "C10" || vi.prop == "C20" { vi.msg.clone() } else { String::new() });
@@ -526,7 +568,7 @@ fn cmd_replay(path: &str, quiet: bool) -> i32 {
 
 fn cmd_dump(prop: &str, seed: u64, thorough: bool) -> i32 {
     let gp = gen::params_for(prop, thorough);
-    let sc = gen::generate(seed, &gp);
+    let sc = scenario_for(&load_corpus(), &gp, seed >> 32, seed & 0xffff_ffff);
     println!("{}", serde_json::to_string_pretty(&sc).unwrap());
     let rep = run_scenario(&sc, &RunOpts { prop: prop.to_string(), thorough });
     for (r, vi) in rep.violations.iter() {
@@ -538,7 +580,7 @@ fn cmd_dump(prop: &str, seed: u64, thorough: bool) -> i32 {
 /// shrink one seed for one clause and write the replay file (debugging aid)
 fn cmd_shrink(prop: &str, seed: u64, clause: &str, thorough: bool) -> i32 {
     let gp = gen::params_for(prop, thorough);
-    let sc = gen::generate(seed, &gp);
+    let sc = scenario_for(&load_corpus(), &gp, seed >> 32, seed & 0xffff_ffff);
     let opts = RunOpts { prop: prop.to_string(), thorough };
     let rep = run_scenario(&sc, &opts);
     let vprop = std::env::var("VPROP").unwrap_or_else(|_| prop.to_string());
@@ -597,6 +639,8 @@ fn cmd_trace(path: &str) -> i32 {
 fn cmd_digest(prop: &str, from: u64, count: u64, threads: usize) -> i32 {
     let gp = gen::params_for(prop, false);
     let opts = RunOpts { prop: prop.to_string(), thorough: false };
+    let corpus = load_corpus();
+    let corpus = &corpus;
     let next = AtomicU64::new(0);
     let mut all: Vec<(u64, u64, usize)> = Vec::new();
     std::thread::scope(|s| {
@@ -613,7 +657,7 @@ fn cmd_digest(prop: &str, from: u64, count: u64, threads: usize) -> i32 {
                         break;
                     }
                     let seed = from + i;
-                    let sc = gen::generate(seed, &gp);
+                    let sc = scenario_for(corpus, &gp, seed >> 32, seed & 0xffff_ffff);
                     let rep = run_scenario(&sc, opts);
                     v.push((seed, rep.log_digest, rep.violations.len()));
                 }
